@@ -288,10 +288,24 @@ EXTRA = {
            "each other, type aliases, functions and globals referring to each other). A panic is identified by its call site once "
            "its text is not pinned. The harness runner has a progress watchdog (a hang costs one request, not the batch).",
     "C05": "Callees include self cells of one word, of a flat pair and of a nested tuple (one cell of three words).",
-    "C07": "Edits include nesting a voice one call deeper and back.",
+    "C07": "Edits include nesting a voice one call deeper and back. A second layer binds the live-coding loop of the CLI: "
+           "LiveLoop.tla models editor / watcher thread / audio thread with the swap channel (who computes the migration plan, "
+           "from which layout, applied to which program) and TLC checks the promise over all interleavings for the VM path, the "
+           "in-process WASM path and the compiler-subprocess WASM path the CLI uses (where it fails: pinned finding), and refutes "
+           "it for a consumer that takes only the newest waiting program; EditSwap.tla with Live = TRUE queues saved versions for "
+           "the audio callback (one per invocation, also re-saves of an unchanged file), and a structural cover of its histories is "
+           "replayed through the real FileRunner, compile service / compiler subprocess, swap channel and NativeAudioData::process.",
+    "C08": "Also: single deletions / insertions in sibling lists over a palette of subtree weights (stateful leaves of 1-3 words, "
+           "stateless calls of 1-5 nodes, calls mixing both), the real plans validated by StateTreeTrace.tla.",
+    "C15": "The corpus also holds a table of order-sensitive programs (clashing wildcard imports, multi-imports, 6-8 declarations "
+           "of each kind).",
+    "C19": "Thread mixes include jobs that end in a panic of their own (macro-stage primitives on malformed input, an unsupported "
+           "shape); Session.tla models the poisoning of the session lock by a panic of its holder.",
+    "C20": "The universe includes the empty aggregates and a third level with empty aggregates in payload / element / field position.",
     "C09": "The form table includes sibling and nested tuple patterns with placeholders.",
-    "C10": "A table of templates outside Lang (letrec beside / around the hole, binders in nested blocks, if arms, tuples) x four "
-           "use sites is run with the binder named t and named u and validated by Lockstep.tla.",
+    "C10": "A table of templates outside Lang (letrec beside / around the hole, binders in nested blocks, if arms, tuples, binders "
+           "mentioned by quoted code inside a splice) x seven use sites (global / local definitions, names imported from a module by "
+           "wildcard or by name) is run with the binder named t and named u and validated by Lockstep.tla.",
     "C12": "Boundedness is also asked, on both runtimes, of a table of closure constructs that are steady on the pinned tree "
            "(lambdas applied on the spot, local letrec, pipes, tasks; in unit-returning and value-returning functions).",
     "C13": "Three sub-lexicons (numbers and projection chains, comments and strings, operators) are explored deeper than the full alphabet.",
